@@ -1,8 +1,9 @@
-//! C13 / C09 observation probe (not a check): the TLS client's handshake await is not raced with the
-//! command queue. A TLS client channel connects to a peer that accepts the TCP connection and never
-//! answers; Channel::shutdown() is called while the handshake is pending.
-//! input line: <dir with ca_cert.pem client_cert.pem client_key.pem> <stall_ms>
-//! output line: shutdown-announced-during-stall=<yes|no> after-peer-closed=<yes|no> states=<listener trace>
+//! C09 / C13 / C07: a TLS client channel against a peer that accepts the TCP connection and never
+//! answers (the handshake stalls); while it stalls the channel is shut down, disabled, or given a request.
+//! input line: <dir with ca_cert.pem client_cert.pem client_key.pem> <op> [stall_ms]     op: S | D | Q
+//!   S  Channel::shutdown()     D  Channel::disable()     Q  a read request (2 s response timeout)
+//! output line: <listener states observed until the END of the stall, ','-separated>;req=<none|NoConnection|other|pending>
+//!   (the peer closes only after the stall; what happens then is not part of the line)
 use std::net::{Ipv4Addr, SocketAddr};
 use std::path::Path;
 use std::time::Duration;
@@ -20,35 +21,74 @@ impl Listener<ClientState> for L {
     }
 }
 
+fn name(s: &ClientState) -> String {
+    match s {
+        ClientState::Disabled => "Disabled".to_string(),
+        ClientState::Connecting => "Connecting".to_string(),
+        ClientState::Connected => "Connected".to_string(),
+        ClientState::WaitAfterFailedConnect(_) => "WaitAfterFailedConnect".to_string(),
+        ClientState::WaitAfterDisconnect(_) => "WaitAfterDisconnect".to_string(),
+        ClientState::Shutdown => "Shutdown".to_string(),
+    }
+}
+
 pub fn main(_args: &[String]) -> i32 {
+    crate::util::quiet_panics();
     let rt = tokio::runtime::Builder::new_multi_thread().worker_threads(2).enable_all().build().unwrap();
     for line in crate::util::stdin_lines() {
         let p: Vec<&str> = line.split_whitespace().collect();
         let dir = Path::new(p[0]);
-        let stall = Duration::from_millis(p.get(1).and_then(|s| s.parse().ok()).unwrap_or(500));
+        let op = p.get(1).copied().unwrap_or("S");
+        let stall = Duration::from_millis(p.get(2).and_then(|s| s.parse().ok()).unwrap_or(600));
         let listener = std::net::TcpListener::bind((Ipv4Addr::LOCALHOST, 0)).unwrap();
         let addr: SocketAddr = listener.local_addr().unwrap();
-        let cfg = TlsClientConfig::full_pki(Some("test.com".to_string()), &dir.join("ca_cert.pem"), &dir.join("client_cert.pem"), &dir.join("client_key.pem"), None, MinTlsVersion::V1_2).unwrap();
+        let cfg = match TlsClientConfig::full_pki(Some("test.com".to_string()), &dir.join("ca_cert.pem"), &dir.join("client_cert.pem"), &dir.join("client_key.pem"), None, MinTlsVersion::V1_2) {
+            Ok(c) => c,
+            Err(e) => {
+                println!("CONFIG:{e}");
+                continue;
+            }
+        };
         let (tx, rx) = std::sync::mpsc::channel();
         let _g = rt.enter();
-        let channel = spawn_tls_client_task(HostAddr::ip(addr.ip(), addr.port()), 4, doubling_retry_strategy(Duration::from_millis(50), Duration::from_millis(50)), cfg, DecodeLevel::nothing(), Some(Box::new(L { tx })));
-        rt.block_on(channel.enable()).unwrap();
+        let channel = spawn_tls_client_task(HostAddr::ip(addr.ip(), addr.port()), 4, doubling_retry_strategy(Duration::from_secs(30), Duration::from_secs(30)), cfg, DecodeLevel::nothing(), Some(Box::new(L { tx })));
+        let _ = rt.block_on(channel.enable());
         let (sock, _) = listener.accept().unwrap();
-        std::thread::sleep(Duration::from_millis(100)); // the client is now parked in its handshake
-        let _ = rt.block_on(channel.shutdown());
-        std::thread::sleep(stall);
-        let mut states: Vec<ClientState> = rx.try_iter().collect();
-        let during = states.contains(&ClientState::Shutdown);
+        // read the ClientHello so that the client is certainly past the TCP connect and inside its handshake
+        let mut hello = [0u8; 5];
+        let _ = sock.set_read_timeout(Some(Duration::from_secs(5)));
+        let _ = std::io::Read::read_exact(&mut &sock, &mut hello);
+        std::thread::sleep(Duration::from_millis(50));
+        let mut req = "none".to_string();
+        match op {
+            "S" => {
+                let _ = rt.block_on(channel.shutdown());
+            }
+            "D" => {
+                let _ = rt.block_on(channel.disable());
+            }
+            "Q" => {
+                let ch = channel.clone();
+                let h = rt.spawn(async move {
+                    let p = RequestParam::new(UnitId::new(1), Duration::from_secs(2));
+                    ch.read_holding_registers(p, AddressRange::try_from(0, 1).unwrap()).await
+                });
+                let res = rt.block_on(async { tokio::time::timeout(stall, h).await });
+                req = match res {
+                    Err(_) => "pending".to_string(),
+                    Ok(Ok(Err(RequestError::NoConnection))) => "NoConnection".to_string(),
+                    Ok(_) => "other".to_string(),
+                };
+            }
+            _ => {}
+        }
+        if op != "Q" {
+            std::thread::sleep(stall);
+        }
+        let states: Vec<String> = rx.try_iter().map(|s| name(&s)).collect();
+        println!("{};req={}", states.join(","), req);
         drop(sock);
-        std::thread::sleep(Duration::from_millis(500));
-        states.extend(rx.try_iter());
-        let after = states.contains(&ClientState::Shutdown);
-        println!(
-            "shutdown-announced-during-stall={} after-peer-closed={} states={:?}",
-            if during { "yes" } else { "no" },
-            if after { "yes" } else { "no" },
-            states
-        );
+        let _ = rt.block_on(channel.shutdown());
     }
     0
 }
